@@ -210,8 +210,34 @@ def interleaved_trace(env_a, env_b, seed_a, seed_b, actions):
 
 
 def valid_variations(data):
-    """edited but still valid configurations: every numeric parameter set to zero, every boolean flipped"""
+    """edited but still valid configurations: every numeric parameter set to zero, every boolean flipped; terminating
+    function nested one and two levels deep; junk parameters on nested specs; observation through from_visibility with a
+    nested visibility function"""
     out = []
+    term = data['terminating_function']
+    d = copy.deepcopy(data)
+    d['terminating_function'] = {'name': 'reduce_any', 'terminating_functions': [copy.deepcopy(term)]}
+    out.append(('terminating nested in reduce_any', d))
+    d = copy.deepcopy(data)
+    d['terminating_function'] = {'name': 'reduce_all', 'terminating_functions': [
+        {'name': 'reduce_any', 'terminating_functions': [copy.deepcopy(term), {'name': 'bump_into_wall'}]}, copy.deepcopy(term)]}
+    out.append(('terminating nested two levels', d))
+    d = copy.deepcopy(data)
+    d['terminating_function'] = {'name': 'reduce_any', 'terminating_functions': [
+        dict(copy.deepcopy(term), reward=0.0, reward_on=3.0, surprise=1), {'name': 'bump_into_wall', 'reward': 0.0}]}
+    out.append(('nested terminating with parameters it does not accept', d))
+    d = copy.deepcopy(data)
+    d['reward_functions'] = [{'name': 'reduce_sum', 'reward_functions': copy.deepcopy(data['reward_functions'])},
+                             {'name': 'living_reward', 'reward': 0.0, 'object_type': 'Wall', 'surprise': 2}]
+    out.append(('rewards nested in reduce_sum + ignored parameters', d))
+    obs = data['observation_function']
+    if obs['name'] in ('partially_occluded', 'raytracing', 'fully_transparent', 'stochastic_raytracing'):
+        for vname, extra in ((obs['name'], {}), ('raytracing', {'absolute_counts': False, 'threshold': 0.5}),
+                             ('raytracing', {'threshold': 2, 'surprise': 'x'})):
+            d = copy.deepcopy(data)
+            d['observation_function'] = {'name': 'from_visibility', 'area': copy.deepcopy(obs['area']),
+                                         'visibility_function': dict({'name': vname}, **extra)}
+            out.append((f'from_visibility with nested {vname} {extra}', d))
     for path in walk_functions(data):
         spec = get_path(data, path)
         for key, value in spec.items():
@@ -230,8 +256,17 @@ def variation_checks(ctx, name, data, seed, nsteps):
     for vid, var in valid_variations(data):
         payload = {'file': name, 'variation': vid}
         ok_r, ref = call_real(compose.build_env, copy.deepcopy(var))
-        ok_f, env = call_real(factory_env_from_data, copy.deepcopy(var))
+        given = copy.deepcopy(var)
+        ok_f, env = call_real(factory_env_from_data, given)
         ctx.ev()
+        if ok_f:
+            if enc.jdump(given) != enc.jdump(var):
+                ctx.violation('build', 'factory.mutates_input', f'{name} [{vid}]: factory_env_from_data modified the data passed to it',
+                              'variation_case', payload)
+            ok_again, _ = call_real(factory_env_from_data, given)
+            if not ok_again:
+                ctx.violation('build', 'build.not_repeatable', f'{name} [{vid}]: a second build from the same data failed: {describe_exc(_)}',
+                              'variation_case', payload)
         if not ok_r:
             # the hand assembly rejects it too (e.g. num_obstacles too large): the factory must reject it as well
             if ok_f:
@@ -293,6 +328,12 @@ def corruptions(data):
         out.append(('unknown_name@' + '/'.join(map(str, path)), d))
         spec = get_path(data, path)
         kind = kind_of(path)
+        # a name that exists, but only in the registry of another kind of component
+        foreign = {'reset': 'move_agent', 'transition': 'living_reward', 'reward': 'turn_agent', 'terminating': 'living_reward',
+                   'observation': 'keydoor', 'visibility': 'actuate_door'}[kind]
+        d = copy.deepcopy(data)
+        get_path(d, path)['name'] = foreign
+        out.append((f'foreign_name={foreign}@' + '/'.join(map(str, path)), d))
         required = required_params(kind, spec['name'])
         for rp in required:
             if rp in spec:
@@ -314,6 +355,12 @@ def corruptions(data):
             d = copy.deepcopy(data)
             get_path(d, path)['object_type'] = 'NoSuchObject'
             out.append(('object_type=NoSuchObject@' + '/'.join(map(str, path)), d))
+    obs = data['observation_function']
+    if 'area' in obs:
+        for bad_vis in ({'name': 'no_such_visibility'}, {'nome': 'raytracing'}, 'raytracing', {'name': 'living_reward'}, None):
+            d = copy.deepcopy(data)
+            d['observation_function'] = {'name': 'from_visibility', 'area': copy.deepcopy(obs['area']), 'visibility_function': copy.deepcopy(bad_vis)}
+            out.append((f'visibility_function={bad_vis!r}', d))
     for space in ('state_space', 'observation_space'):
         for key in ('colors', 'objects'):
             for bad in MALFORMED_LISTS + [[data[space][key][0], data[space][key][0]]]:
